@@ -387,6 +387,8 @@ def reduce_minmax(E, kind, t, dims, keepdim, node=None):
         if d >= rank:
             raise_(E, "IndexError", "Dimension out of range", node)
     kept_dims = [k for k in range(rank) if k not in dims]
+    if getattr(E, "concrete_reductions", False) and all(concrete_int(d) is not None if is_sym(d) else True for d in t.shape):
+        return _explicit_minmax(E, kind, t, dims, keepdim, kept_dims)
     n = E.fresh_name(f"{kind}_{t.name}")
     srt = E.alg.sort(t.dtype)
     if kept_dims:
@@ -414,6 +416,38 @@ def reduce_minmax(E, kind, t, dims, keepdim, node=None):
     r = STensor(t.dtype, oshape, elem, device=t.device, fresh=True)
     r.attrs["reduction"] = info
     return r
+
+
+def _explicit_minmax(E, kind, t, dims, keepdim, kept_dims):
+    """Conformance mode (concrete shapes): the maximum / minimum is folded over the reduced slice explicitly."""
+    import itertools
+
+    shape = [concrete_int(d) if is_sym(d) else d for d in t.shape]
+    tf = t.snap()
+    op = "gt" if kind == "amax" else "lt"
+
+    def res(kept):
+        best = None
+        for red in itertools.product(*[range(shape[d]) for d in dims]):
+            idx, ki, ri = [], 0, 0
+            for k in range(len(shape)):
+                if k in dims:
+                    idx.append(red[ri])
+                    ri += 1
+                else:
+                    idx.append(kept[ki])
+                    ki += 1
+            v = tf(idx)
+            best = v if best is None else z3.If(E.alg.cmp(op, v, best, t.dtype), v, best)
+        return best
+
+    if keepdim:
+        oshape = [1 if k in dims else s for k, s in enumerate(shape)]
+        elem = lambda idx: res([i for k, i in enumerate(idx) if k not in dims])
+    else:
+        oshape = [s for k, s in enumerate(shape) if k not in dims]
+        elem = lambda idx: res(list(idx))
+    return STensor(t.dtype, oshape, elem, device=t.device, fresh=True)
 
 
 def reduction_facts(E, extra_points=(), rounds=2):
